@@ -86,6 +86,10 @@ class IdealEncoder:
     def encode(self, stream_id, headers):
         IdealQpack.encoded.append(list(headers))
         token = len(IdealQpack.encoded) - 1
+        if IdealQpack.per_instance_tokens:
+            # two copies of one connection (C20) must see the same encoder output
+            self._n = getattr(self, "_n", -1) + 1
+            token = self._n
         return b"", bytes([0xE0, token])  # two opaque bytes naming the header list
 
     def feed_decoder(self, data):
@@ -102,6 +106,7 @@ class IdealQpack:
     EncoderStreamError = EncoderStreamError
     DecoderStreamError = DecoderStreamError
     encoded = []
+    per_instance_tokens = False
     on_header = staticmethod(lambda dec, sid, data: [])
     on_resume = staticmethod(lambda dec, sid: [])
     on_encoder_data = staticmethod(lambda dec, data: [])
@@ -110,6 +115,7 @@ class IdealQpack:
     @classmethod
     def reset(cls):
         cls.encoded = []
+        cls.per_instance_tokens = False
         cls.on_header = staticmethod(lambda dec, sid, data: [])
         cls.on_resume = staticmethod(lambda dec, sid: [])
         cls.on_encoder_data = staticmethod(lambda dec, data: [])
